@@ -23,6 +23,8 @@ import (
 // twinKinds are the op kinds judged by the twin run; value = number of variants (selected by Op.A).
 var twinKinds = map[string]int{
 	"cb_notdone": 2, "cb_unknown": 2, "az_err": 6, "az_noredirect": 3, "tok_err": 8, "cred_err": 6, "dead_tok": 4, "es_err": 3,
+	// not refusals, but judged the same way: requests to the providers that share the process (variant = the provider asked)
+	"devauth": 4, "xdisc": 3,
 }
 
 // variants of twin kinds that need the pools of setup (not run in a cold case)
@@ -255,6 +257,55 @@ func (e *env) errOp(o Op, tag string, part int, sync func()) (obs, msg string) {
 			}
 			return observe(r), ""
 		}
+	case "devauth":
+		// ONE device authorization request, on the shared provider (variant 0) or on a side provider
+		name, pag, iss := "the shared provider", ag, issuer
+		if v > 0 && len(e.sides) > 0 {
+			sp := e.sides[(v-1)%len(e.sides)]
+			name, pag, iss = sp.name, sp.ags[part], sp.iss
+		}
+		cl := e.web
+		if o.B&1 == 1 {
+			cl = e.native
+		}
+		sync()
+		r := pag.DeviceAuthorize("openid", vkit.RightCred(cl, iss))
+		d := devAnswerOf(name, "request "+tag, r)
+		e.devLog[part] = append(e.devLog[part], d)
+		if r.Panic != nil || !r.Success() || d.UserCode == "" || d.DeviceCode == "" {
+			return observe(r), "device authorization on " + name + ": " + r.Describe()
+		}
+		pcfg := e.c.Cfg
+		if name != "the shared provider" {
+			pcfg = e.c.Side[(v-1)%len(e.sides)].Cfg
+		}
+		if l := pcfg.deviceMismatch(iss, d); len(l) > 0 {
+			return d.norm(), "NOT-OWN-CONFIG " + name + ": " + strings.Join(l, "; ")
+		}
+		return d.norm(), ""
+	case "xdisc":
+		// discovery document (or key set) of a provider with another configuration living in the same process
+		pag, pcfg, name := ag, e.c.Cfg, "the shared provider"
+		if len(e.sides) > 0 {
+			sp := e.sides[v%len(e.sides)]
+			pag, pcfg, name = sp.ags[part], e.c.Side[v%len(e.sides)].Cfg, sp.name
+		}
+		sync()
+		var r *vkit.Resp
+		if o.B&1 == 1 {
+			r = pag.Keys()
+		} else {
+			r = pag.Discovery()
+		}
+		if r.Panic != nil || !r.Success() {
+			return observe(r), "want the document: " + r.Describe()
+		}
+		if o.B&1 == 0 {
+			if l := pcfg.discoveryMismatch(r.JSON()); len(l) > 0 {
+				return observe(r), "NOT-OWN-CONFIG " + name + ": " + strings.Join(l, "; ")
+			}
+		}
+		return observe(r), ""
 	case "es_err":
 		q := url.Values{"state": {state}, "post_logout_redirect_uri": {rpLogout}}
 		switch v {
